@@ -623,6 +623,11 @@ def _unit_info(st, sym):
     u = Unit(sym)
     assert quantity._SYMBOL_UNIT_MAP[sym] is u
     assert u.qty_cls.get_unit_by_symbol(sym) is u and sym in u.qty_cls
+    # "the identical object": also through copying, the symbol and the listing
+    import copy
+    assert copy.copy(u) is u and copy.deepcopy(u) is u and copy.deepcopy([u])[0] is u
+    assert u.symbol == sym and str(u) == sym and u in tuple(u.qty_cls.units())
+    assert u.is_derived_unit() == (not u.is_base_unit())
     return (f"ok cls={u.qty_cls.__name__} equiv={_opt_rat(u._equiv)} "
             f"base={_b(u.is_base_unit())} ref={_b(u.is_ref_unit())} "
             f"quantum={_opt_rat(u.quantum)}")
